@@ -43,7 +43,11 @@ func HashPoseidon2(x []koalabear.Element) Hash {
 	)
 
 	for i := 0; i < len(x); i += blockSize {
-		copy(state[len(res):], x[i:])
+		n := copy(state[len(res):], x[i:])
+		// zero-pad a partial last block (the rate still holds the previous permutation output)
+		for j := len(res) + n; j < stateSize; j++ {
+			state[j].SetZero()
+		}
 		spongePerm.Permutation(state[:])
 	}
 
